@@ -261,7 +261,7 @@ pub fn string_to_number(s: &str) -> f64 {
 /// - ASCII whitespace: space, tab, LF, CR, form feed, vertical tab
 /// - Unicode: no-break space (00A0), BOM (FEFF), line separator (2028), paragraph separator (2029)
 /// - And other Unicode space separators
-fn trim_js_whitespace(s: &str) -> &str {
+pub(crate) fn trim_js_whitespace(s: &str) -> &str {
     fn is_js_whitespace(c: char) -> bool {
         matches!(
             c,
